@@ -198,7 +198,7 @@ class Interp:
             "enumerate": PyFunc(lambda a, start=0: list(enumerate(a, start)), "enumerate", True),
             "reversed": PyFunc(lambda a: list(reversed(a)), "reversed", True),
             "any": PyFunc(lambda seq: any(self.truth(x) for x in list(seq)), "any", True),
-            "all": PyFunc(lambda seq: all(self.truth(x) for x in list(seq)), "all", True), "hasattr": PyFunc(self._hasattr, "hasattr", True), "format": PyFunc(format, "format"),
+            "all": PyFunc(lambda seq: all(self.truth(x) for x in list(seq)), "all", True), "hasattr": PyFunc(self._hasattr, "hasattr", True), "format": PyFunc(self._format_builtin, "format", True),
             "bin": PyFunc(bin, "bin"), "hex": PyFunc(hex, "hex"), "set": PyFunc(self._set, "set", True), "frozenset": PyFunc(lambda *a: frozenset(self._set(*a)) if not isinstance(self._set(*a), Unk) else Unk("frozenset"), "frozenset", True),
             "object": ClassRef("object"), "type": PyFunc(self._type, "type", True), "id": PyFunc(lambda o: id(o), "id", True), "slice": PyFunc(slice, "slice"), "Ellipsis": Ellipsis,
             "filter": PyFunc(lambda f, seq: [x for x in list(seq) if self.truth(self.call(f, [x], {}) if f is not None else x)], "filter", True),
@@ -227,6 +227,7 @@ class Interp:
                 "invert": PyFunc(lambda a: self.unop(ast.Invert(), a), "operator.invert", True),
                 "inv": PyFunc(lambda a: self.unop(ast.Invert(), a), "operator.inv", True),
                 "not_": PyFunc(lambda a: not self.truth(a), "operator.not_", True),
+                "index": PyFunc(lambda a: __import__("operator").index(a) if isinstance(a, int) else Unk("operator.index"), "operator.index", True),
                 "truth": PyFunc(lambda a: self.truth(a), "operator.truth", True),
                 "truediv": PyFunc(lambda a, b: self.binop(ast.Div(), a, b), "operator.truediv", True),
                 "matmul": PyFunc(lambda a, b: self.binop(ast.MatMult(), a, b), "operator.matmul", True),
@@ -456,6 +457,41 @@ class Interp:
         if len(a) == 1 and not k and isinstance(a[0], (Closure, PyFunc, Bound)):
             return decorate(a[0])                 # @lru_cache without parentheses
         return PyFunc(decorate, "lru_cache(...)", True)
+
+    def format_value(self, val, spec="", conversion=-1):
+        """Text of `{val!conv:spec}` / format(val, spec): through __format__ / __str__ / __repr__ of repository classes,
+        Python's own formatting for concrete values, the placeholder of a token (no spec)."""
+        if isinstance(val, Obj) and val.kind in self.instance_classes:
+            module = self.instance_classes[val.kind].split(".")[0]
+            order = {115: ["__str__", "__repr__"], 114: ["__repr__"], 97: ["__repr__"]}.get(conversion, ["__format__", "__str__", "__repr__"])
+            for name in order:
+                d = self._class_def(val.kind, name)
+                if isinstance(d, ast.FunctionDef):
+                    r = self.call_function(d, [val] + ([spec] if name == "__format__" else []), {}, {}, module)
+                    if isinstance(r, str):
+                        return format(r, spec) if (name != "__format__" and spec) else r
+                    return None
+        if isinstance(val, Obj):
+            txt = val.attrs.get("fmt")
+            if txt is None:
+                return None
+            if spec and not re.fullmatch(r"[<>^]?\d*s?", spec):
+                return None                      # a numeric presentation of an opaque value is not known
+            return format(str(txt), spec) if spec else str(txt)
+        if conversion in (114, 97) and _concrete(val):
+            val = repr(val) if conversion == 114 else ascii(val)
+        elif conversion == 115 and _concrete(val):
+            val = str(val)
+        if spec and _concrete(val) and not isinstance(val, (list, tuple, dict)):
+            try:
+                return format(val, spec)
+            except (ValueError, TypeError):
+                raise Raised("ValueError")
+        return _fmt(val)
+
+    def _format_builtin(self, val, spec=""):
+        txt = self.format_value(val, spec if isinstance(spec, str) else "")
+        return txt if txt is not None else Unk("format")
 
     def _iter(self, v, *sentinel):
         if sentinel or isinstance(v, (Unk, T)):
@@ -1475,7 +1511,10 @@ class Interp:
                     parts.append(str(v.value))
                 else:
                     val = self.eval(v.value, env)
-                    txt = _fmt(val)
+                    spec = self.eval(v.format_spec, env) if v.format_spec is not None else ""
+                    if not isinstance(spec, str):
+                        return Unk("f-string")
+                    txt = self.format_value(val, spec, v.conversion)
                     if txt is None:
                         return Unk("f-string")
                     parts.append(txt)
